@@ -67,8 +67,9 @@ def gen_docs(ctx, n, escapes=True, maxdepth=4):
     return docs
 
 
-STRUCT_ALPHABET = [ord(c) for c in '[]{}"\\,:t1 u'] + [0]
+STRUCT_ALPHABET = [ord(c) for c in '[]{}"\\,:t1 u'] + [0, 11]
 SUFFIXES = [ord(c) for c in 'x]}[{",:0-tfn\\/.e+*#'] + [0, 1, 127, 128, 255]
+CONTROL_SUFFIXES = [x for x in range(0, 32) if x not in (9, 10, 13)] + [127, 133, 160]
 
 
 def mutate(rng, u):
@@ -95,7 +96,7 @@ def mutate(rng, u):
 
 def soup(rng, n):
     frags = ['{', '}', '[', ']', '"', '":', ',', ':', 'true', 'false', 'null', 'tru', 'nul', '"a"', '"\\', '\\u', '\\u12', '\\uD800', '\\uDC00',
-             '1', '-', '0', '1.5', '1e', '1e+', ' ', '\n', '\t', '\\"', '\\n', 'x', '\0', '0x1F', '.5', '+1', '--1', '1e400', '\\ud83d\\ude00']
+             '1', '-', '0', '1.5', '1e', '1e+', ' ', '\n', '\t', '\x0b', '\x0c', '\x1f', '\\"', '\\n', 'x', '\0', '0x1F', '.5', '+1', '--1', '1e400', '\\ud83d\\ude00']
     out = []
     for _ in range(n):
         out += [ord(c) for c in rng.choice(frags)]
